@@ -20,6 +20,7 @@ Verdict (DESIGN.md §2.3):
 """
 from __future__ import annotations
 
+import contextlib
 import fcntl
 import hashlib
 import json
@@ -54,6 +55,17 @@ TRUSTED_BASE_COMMON = [
     "hand-written Lean model of the anchored code + this differential correspondence harness (python, in-process with /repo/src)",
     "IEEE rounding, torch/numpy/pandas kernels are exercised through the real code but not modelled",
 ]
+
+
+@contextlib.contextmanager
+def quiet():
+    """Silence leaspy's prints (seed / timing banners) and warnings around calls into the implementation."""
+    import io
+    import warnings
+    with warnings.catch_warnings():
+        warnings.simplefilter("ignore")
+        with contextlib.redirect_stdout(io.StringIO()), contextlib.redirect_stderr(io.StringIO()):
+            yield
 
 
 class Infra(Exception):
@@ -420,9 +432,14 @@ class Check:
 
 
 def load_findings() -> list[dict]:
+    out = []
     if FINDINGS_FILE.exists():
-        return json.loads(FINDINGS_FILE.read_text())["findings"]
-    return []
+        out += json.loads(FINDINGS_FILE.read_text())["findings"]
+    d = ROOT / "known_findings.d"
+    if d.is_dir():
+        for f in sorted(d.glob("*.json")):
+            out += json.loads(f.read_text())["findings"]
+    return out
 
 
 def load_corpus(prop: str) -> list:
